@@ -273,8 +273,9 @@ def typeFields (e : Env) (c : RefCtx) (t : TypeExpr) (attrs : Attrs) : List (Key
 
 def noAttrs : Attrs := ⟨[], []⟩
 
+/-- a nested type is named `Outer.Inner`; the context recorded beside a reference is the path -/
 def fieldNodes (e : Env) (app : List String) (tname : String) (fs : List Field) : List (Key × Node) :=
-  fs.map fun f => (key "attr_defs" f.name, .msg (typeFields e ⟨app, [tname], true⟩ f.ty f.attrs))
+  fs.map fun f => (key "attr_defs" f.name, .msg (typeFields e ⟨app, tname.splitOn ".", true⟩ f.ty f.attrs))
 
 def typeDeclFields (e : Env) (app : List String) (t : TypeDecl) : List (Key × Node) :=
   attrFields t.attrs ++
